@@ -83,7 +83,7 @@ var sessFamilies = map[string]SessFamily{
 	"badto":       {"badto", "MC_SessBadTo", []string{"C06"}},
 	"genmap":      {"genmap", "MC_GenMap", []string{"C01", "C02"}},
 	"genflags":    {"genflags", "MC_GenFlags", []string{"C10"}},
-	"genselect":   {"genselect", "MC_GenSelect", []string{"C12"}},
+	"genselect":   {"genselect", "MC_GenSelect", []string{"C12", "C01"}},
 	"genwhole":    {"genwhole", "MC_GenWhole", []string{"C18", "C03", "C02"}},
 	"genconfig":   {"genconfig", "MC_GenConfig", []string{"C16"}},
 	"gendet":      {"gendet", "MC_GenDet", []string{"C14"}},
